@@ -110,6 +110,13 @@ func faultyStmt(g *scriptGen, depth int) *Stmt {
 			{K: "jump", Target: "Nowhere", Note: "statement/unknown-node"},
 			{K: "jumpx", E: num("1"), Note: "statement/jump-to-number"},
 			{K: "jumpx", E: str("No Such Node"), Note: "statement/unknown-node"},
+			// names that are long in bytes but not in characters, and the other way round (messages that abbreviate or pad them)
+			{K: "jumpx", E: str(strings.Repeat("日本語", 10)), Note: "statement/unknown-node-long"},
+			{K: "jumpx", E: str(strings.Repeat("щ", 45)), Note: "statement/unknown-node-long"},
+			{K: "jumpx", E: str(strings.Repeat("n", 300)), Note: "statement/unknown-node-long"},
+			{K: "jumpx", E: str(strings.Repeat("é", 79) + "x"), Note: "statement/unknown-node-long"},
+			{K: "jumpx", E: str(""), Note: "statement/unknown-node-empty"},
+			{K: "jump", Target: strings.Repeat("Ж", 41), Note: "statement/unknown-node-long"},
 		}).Draw(t, "stmtfault")
 	case 12:
 		return rapid.SampledFrom([]*Stmt{
@@ -128,6 +135,9 @@ func faultyStmt(g *scriptGen, depth int) *Stmt {
 	case 14:
 		return rapid.SampledFrom([]*Stmt{
 			{K: "call", Fn: "nosuch", Note: "statement/unknown-function"},
+			{K: "call", Fn: strings.Repeat("fonction_inconnue_é", 6), Note: "statement/unknown-function-long"},
+			{K: "set", Var: "fresh" + id, Op: "=", E: varRef(strings.Repeat("変数", 25)), Note: "statement/unknown-variable-long"},
+			{K: "cmd", Words: []TextPart{{S: strings.Repeat("команда", 13)}, {S: "a"}}, Note: "statement/unknown-command-long"},
 			{K: "call", Fn: "pt", Note: "statement/arg-count"},
 			{K: "call", Fn: "pt", Args: []*Expr{num("1")}, Note: "statement/arg-type"},
 			{K: "call", Fn: "dice", Args: []*Expr{num("0")}, Note: "statement/dice-domain"},
